@@ -11,7 +11,7 @@
    order RelayHost.Start returned them, 1 .. next_call st - 1. *)
 From Coq Require Import ZArith List Bool.
 From Verif Require Import Base.Wrap Gen.GenConsts Model.RelayItems Spec.RelayAccount
-  Proofs.RelayAssocP Proofs.RelayInvP Proofs.RelayTimerP Proofs.RelayThmP Proofs.RelaySilentP.
+  Proofs.RelayAssocP Proofs.RelayInv9P Proofs.RelayTimerP Proofs.RelayThmP Proofs.RelaySilentP.
 Import ListNotations.
 Local Open Scope Z_scope.
 
